@@ -80,6 +80,8 @@ class _ConcatStringSourceContents(ContentsWithCachedPathFromWriteToBase):
     def write_to(self, output: TextIO):
         for part in self._parts:
             part.contents().write_to(output)
+            # A following part may be written by an OS process, directly to the file
+            output.flush()
 
     @property
     def tmp_file_space(self) -> DirFileSpace:
